@@ -129,9 +129,9 @@ func genLatency(t *Tape, latMax int) time.Duration {
 
 func (p *RevProfile) genFault(t *Tape, sc *RevScenario, kind string) Fault {
 	// candidate network faults
-	cands := []int{FConnErr, FStall, FStatus, FRedirect, FEmpty, FTruncate, FBodyErr, FBodyStall, FGarbage}
+	cands := []int{FConnErr, FStall, FStatus, FRedirect, FEmpty, FTruncate, FBodyErr, FBodyStall, FGarbage, FLyingCL}
 	if p.TimeInvariant {
-		cands = []int{FConnErr, FStatus, FRedirect, FEmpty, FTruncate, FBodyErr, FGarbage}
+		cands = []int{FConnErr, FStatus, FRedirect, FEmpty, FTruncate, FBodyErr, FGarbage, FLyingCL}
 	}
 	var en []int
 	for _, c := range cands {
@@ -337,7 +337,7 @@ func GenRevScenario(t *Tape, p *RevProfile) *RevScenario {
 	sc := &RevScenario{Prof: p}
 	sc.Config = t.Weighted(p.ConfigW...)
 	// swarm masks: a random half of the alphabets
-	sc.netMask = uint32(t.Choose(1 << 14))
+	sc.netMask = uint32(t.Choose(1 << 15))
 	sc.byzMask = uint32(t.Choose(1 << 8))
 	if sc.Config == 0 || sc.Config == 2 {
 		sc.netMask = 0
